@@ -4,6 +4,8 @@ CONSTANTS
   MaxNotes = 2
   None = None
   Calls = {c1, c2}
+  PopFirst = TRUE
+  BadClose = {1, 2, 3, 5, 8}
   GateBySubscription = FALSE
 SYMMETRY Perms
 INVARIANT NoViolation
